@@ -1270,26 +1270,21 @@ class TaskScenario(ScenarioData):
         if not alternative_resources:
             return primary_resources
 
-        # If no primaries, use alternatives
-        if not primary_resources:
-            return alternative_resources
+        # Smart routing: compare completion times. The primary allocation and every single
+        # alternative are candidates of their own - exactly one candidate is booked, the
+        # one that finishes first (ties go to the primary, then to the alternative named first).
+        best: list[Any] = primary_resources
+        best_end = self._estimateCompletionTime(primary_resources, effort) if primary_resources else None
+        chose_alternative = False
+        for alternative in alternative_resources:
+            alternative_end = self._estimateCompletionTime([alternative], effort)
+            if not best or (alternative_end is not None and (best_end is None or alternative_end < best_end)):
+                best, best_end, chose_alternative = [alternative], alternative_end, True
 
-        # Smart routing: compare completion times
-        # Calculate when each path would complete the task
-
-        primary_end = self._estimateCompletionTime(primary_resources, effort)
-        alternative_end = self._estimateCompletionTime(alternative_resources, effort)
-
-        # Choose the path that finishes earlier
-        if alternative_end is not None and (primary_end is None or alternative_end < primary_end):
-            # Store which resource was selected for reporting
-            if not hasattr(self, "_selectedAlternative"):
-                self._selectedAlternative = True
-            return alternative_resources
-        else:
-            if not hasattr(self, "_selectedAlternative"):
-                self._selectedAlternative = False
-            return primary_resources
+        # Store which resource was selected for reporting
+        if not hasattr(self, "_selectedAlternative"):
+            self._selectedAlternative = chose_alternative
+        return best
 
     def _estimateCompletionTime(self, resources: list[Any], effort: float) -> Optional[datetime]:
         """
